@@ -4,7 +4,7 @@
     the split law.  Holds on every store whose images are in range (in particular on every well-formed 3-map). *)
 From Coq Require Import List NArith Bool Lia.
 From HC Require Import Base.Closure Stm.Prog Stm.ProgFacts Stm.Atomic Map2.Ops2 Map2.State2 Map2.Wf2 Map2.Wf2Proofs
-  Map2.Orbit2 Map2.Orbit2Proofs Map2.SewData Map3.Ops3 Map3.Orbit3Proofs.
+  Map2.Orbit2 Map2.Orbit2Proofs Map2.SewData Map2.SewAttr Map3.Ops3 Map3.Orbit3Proofs.
 Import ListNotations.
 Open Scope N_scope.
 Arguments N.eqb : simpl never.
@@ -362,6 +362,361 @@ Proof.
     + intros d D1 D2 D3. rewrite Hv. apply Hoth2; assumption.
     + intros Hd. destruct (Hne2 Hd) as (lv & rv & A & B & C & D). exists lv, rv. rewrite !Hv. auto.
     + intros Hd. destruct (Heq2 Hd) as (A & B). rewrite !Hv. auto.
+Qed.
+
+(** ** the other attribute kinds (the lemmas of Map2/SewAttr.v are dimension-independent) *)
+Definition is_eid3 (n : N) (s : store) (d i : N) : Prop :=
+  exists L, orbit3 n s QEdge d = Some L /\ minof i L.
+Lemma eid3_run' E n c w d cnt : dom3_ok E n -> rng3 n w -> d <> 0 -> d < n ->
+  exists i, run E (edge_id3 n d) c w cnt = (Done i, w, cnt) /\ is_eid3 n w d i.
+Proof.
+  intros Hdom W Hd Hdn. destruct (orbit3_spec n w QEdge d W eq_refl Hd Hdn) as (L & EL & _).
+  destruct (edge_id3_orbit_min E n c w d cnt L Hdom W Hd Hdn EL) as (i & Ri & Mi). exists i. split; [exact Ri|exists L; auto].
+Qed.
+
+Theorem two_sew3_attr_data_none E n ks l r c w cnt w' cnt' :
+  dom3_ok E n -> rng3 n w -> l <> 0 -> l < n -> r <> 0 -> r < n -> beta w 1 l = 0 -> beta w 1 r = 0 -> NoDup (map fst ks) ->
+  run E (two_sew3 n ks l r) c w cnt = (Done tt, w', cnt') ->
+  exists el er en, is_eid3 n w l el /\ is_eid3 n w r er /\ is_eid3 n (set2 w l r) l en /\ attrs_effect ks KEdge w w' el er en.
+Proof.
+  intros Hdom W Hl0 Hln Hr0 Hrn A1 A2 Hks Hr.
+  assert (Hbln : beta w 1 l < n) by (apply W; [lia|exact Hln]).
+  assert (Hbrn : beta w 1 r < n) by (apply W; [lia|exact Hrn]).
+  unfold two_sew3 in Hr. rewrite !run_rdB3 in Hr by (apply Hdom; [lia|assumption]).
+  rewrite A1, A2 in Hr. change (0 =? 0) with true in Hr. cbv iota in Hr.
+  destruct (eid3_run' E n c w l cnt Hdom W Hl0 Hln) as (el & Rel & Vel). rewrite run_bind, Rel in Hr.
+  destruct (eid3_run' E n c w r cnt Hdom W Hr0 Hrn) as (er & Rer & Ver). rewrite run_bind, Rer in Hr.
+  
+  rewrite run_bind in Hr.
+  destruct (run E (two_link_core l r) c w cnt) as [[o1 w1] cnt1] eqn:Hc.
+  apply run_two_link_core in Hc. destruct o1 as [[]|e| |q]; try discriminate Hr.
+  destruct Hc as (-> & ->).
+  pose proof (rng3_set2 n w l r W Hl0 Hr0 Hln Hrn) as W1.
+  destruct (eid3_run' E n c (set2 w l r) l cnt Hdom W1 Hl0 Hln) as (en & Ren & Ven). rewrite run_bind, Ren in Hr.
+  exists el, er, en. split; [exact Vel|]. split; [exact Ver|]. split; [exact Ven|].
+  exact (run_merge_attributes E KEdge en el er ks c (set2 w l r) cnt w' cnt' Hks Hr).
+Qed.
+
+Theorem two_sew3_attr_data_left E n ks l r c w cnt w' cnt' :
+  dom3_ok E n -> rng3 n w -> l <> 0 -> l < n -> r <> 0 -> r < n -> beta w 1 l = 0 -> beta w 1 r <> 0 -> NoDup (map fst ks) ->
+  run E (two_sew3 n ks l r) c w cnt = (Done tt, w', cnt') ->
+  exists i1 i2 i' el er en wa,
+    is_vid3 n w l i1 /\ is_vid3 n w (beta w 1 r) i2 /\ is_vid3 n (set2 w l r) l i' /\ is_eid3 n w l el /\ is_eid3 n w r er /\ is_eid3 n (set2 w l r) l en /\
+    attrs_effect ks KVertex w wa i1 i2 i' /\ attrs_effect ks KEdge wa w' el er en.
+Proof.
+  intros Hdom W Hl0 Hln Hr0 Hrn A1 A2 Hks Hr.
+  assert (Hbln : beta w 1 l < n) by (apply W; [lia|exact Hln]).
+  assert (Hbrn : beta w 1 r < n) by (apply W; [lia|exact Hrn]).
+  unfold two_sew3 in Hr. rewrite !run_rdB3 in Hr by (apply Hdom; [lia|assumption]).
+  rewrite A1 in Hr. change (0 =? 0) with true in Hr.
+  destruct (N.eqb_spec (beta w 1 r) 0) as [Z|_]; [contradiction|].
+  destruct (eid3_run' E n c w l cnt Hdom W Hl0 Hln) as (el & Rel & Vel). rewrite run_bind, Rel in Hr.
+  destruct (eid3_run' E n c w r cnt Hdom W Hr0 Hrn) as (er & Rer & Ver). rewrite run_bind, Rer in Hr.
+  destruct (vid3_run E n c w l cnt Hdom W Hl0 Hln) as (i1 & R1 & V1). rewrite run_bind, R1 in Hr.
+  destruct (vid3_run E n c w (beta w 1 r) cnt Hdom W A2 Hbrn) as (i2 & R2 & V2). rewrite run_bind, R2 in Hr.
+  rewrite run_bind in Hr.
+  destruct (run E (two_link_core l r) c w cnt) as [[o1 w1] cnt1] eqn:Hc.
+  apply run_two_link_core in Hc. destruct o1 as [[]|e| |q]; try discriminate Hr.
+  destruct Hc as (-> & ->).
+  pose proof (rng3_set2 n w l r W Hl0 Hr0 Hln Hrn) as W1.
+  destruct (vid3_run E n c (set2 w l r) l cnt Hdom W1 Hl0 Hln) as (i' & R' & V'). rewrite run_bind, R' in Hr.
+  destruct (eid3_run' E n c (set2 w l r) l cnt Hdom W1 Hl0 Hln) as (en & Ren & Ven). rewrite run_bind, Ren in Hr.
+  rewrite run_bind in Hr.
+  destruct (run E (vertices_merge i' i1 i2) c (set2 w l r) cnt) as [[o2 w2] cnt2] eqn:Hm.
+  destruct o2 as [[]|e| |q]; try discriminate Hr.
+  pose proof (vstep_attrs E _ _ _ _ _ _ (wi_vertices_merge_v i' i1 i2) Hm) as Ha.
+  rewrite run_bind in Hr.
+  destruct (run E (merge_attributes ks KVertex i' i1 i2) c w2 cnt2) as [[o3 wa] cnta] eqn:Hma.
+  destruct o3 as [[]|e| |q]; try discriminate Hr.
+  exists i1, i2, i', el, er, en, wa. split; [exact V1|]. split; [exact V2|]. split; [exact V'|].
+  split; [exact Vel|]. split; [exact Ver|]. split; [exact Ven|]. split.
+  - eapply attrs_effect_ext; [|reflexivity|exact (run_merge_attributes E KVertex i' i1 i2 ks c w2 cnt2 wa cnta Hks Hma)].
+    intros k d. symmetry. apply Ha.
+  - exact (run_merge_attributes E KEdge en el er ks c wa cnta w' cnt' Hks Hr).
+Qed.
+
+Theorem two_sew3_attr_data_right E n ks l r c w cnt w' cnt' :
+  dom3_ok E n -> rng3 n w -> l <> 0 -> l < n -> r <> 0 -> r < n -> beta w 1 l <> 0 -> beta w 1 r = 0 -> NoDup (map fst ks) ->
+  run E (two_sew3 n ks l r) c w cnt = (Done tt, w', cnt') ->
+  exists i1 i2 i' el er en wa,
+    is_vid3 n w (beta w 1 l) i1 /\ is_vid3 n w r i2 /\ is_vid3 n (set2 w l r) r i' /\ is_eid3 n w l el /\ is_eid3 n w r er /\ is_eid3 n (set2 w l r) l en /\
+    attrs_effect ks KVertex w wa i1 i2 i' /\ attrs_effect ks KEdge wa w' el er en.
+Proof.
+  intros Hdom W Hl0 Hln Hr0 Hrn A1 A2 Hks Hr.
+  assert (Hbln : beta w 1 l < n) by (apply W; [lia|exact Hln]).
+  assert (Hbrn : beta w 1 r < n) by (apply W; [lia|exact Hrn]).
+  unfold two_sew3 in Hr. rewrite !run_rdB3 in Hr by (apply Hdom; [lia|assumption]).
+  rewrite A2 in Hr. change (0 =? 0) with true in Hr.
+  destruct (N.eqb_spec (beta w 1 l) 0) as [Z|_]; [contradiction|].
+  destruct (eid3_run' E n c w l cnt Hdom W Hl0 Hln) as (el & Rel & Vel). rewrite run_bind, Rel in Hr.
+  destruct (eid3_run' E n c w r cnt Hdom W Hr0 Hrn) as (er & Rer & Ver). rewrite run_bind, Rer in Hr.
+  destruct (vid3_run E n c w (beta w 1 l) cnt Hdom W A1 Hbln) as (i1 & R1 & V1). rewrite run_bind, R1 in Hr.
+  destruct (vid3_run E n c w r cnt Hdom W Hr0 Hrn) as (i2 & R2 & V2). rewrite run_bind, R2 in Hr.
+  rewrite run_bind in Hr.
+  destruct (run E (two_link_core l r) c w cnt) as [[o1 w1] cnt1] eqn:Hc.
+  apply run_two_link_core in Hc. destruct o1 as [[]|e| |q]; try discriminate Hr.
+  destruct Hc as (-> & ->).
+  pose proof (rng3_set2 n w l r W Hl0 Hr0 Hln Hrn) as W1.
+  destruct (vid3_run E n c (set2 w l r) r cnt Hdom W1 Hr0 Hrn) as (i' & R' & V'). rewrite run_bind, R' in Hr.
+  destruct (eid3_run' E n c (set2 w l r) l cnt Hdom W1 Hl0 Hln) as (en & Ren & Ven). rewrite run_bind, Ren in Hr.
+  rewrite run_bind in Hr.
+  destruct (run E (vertices_merge i' i1 i2) c (set2 w l r) cnt) as [[o2 w2] cnt2] eqn:Hm.
+  destruct o2 as [[]|e| |q]; try discriminate Hr.
+  pose proof (vstep_attrs E _ _ _ _ _ _ (wi_vertices_merge_v i' i1 i2) Hm) as Ha.
+  rewrite run_bind in Hr.
+  destruct (run E (merge_attributes ks KVertex i' i1 i2) c w2 cnt2) as [[o3 wa] cnta] eqn:Hma.
+  destruct o3 as [[]|e| |q]; try discriminate Hr.
+  exists i1, i2, i', el, er, en, wa. split; [exact V1|]. split; [exact V2|]. split; [exact V'|].
+  split; [exact Vel|]. split; [exact Ver|]. split; [exact Ven|]. split.
+  - eapply attrs_effect_ext; [|reflexivity|exact (run_merge_attributes E KVertex i' i1 i2 ks c w2 cnt2 wa cnta Hks Hma)].
+    intros k d. symmetry. apply Ha.
+  - exact (run_merge_attributes E KEdge en el er ks c wa cnta w' cnt' Hks Hr).
+Qed.
+
+Theorem two_sew3_attr_data_both E n ks l r c w cnt w' cnt' :
+  dom3_ok E n -> rng3 n w -> l <> 0 -> l < n -> r <> 0 -> r < n -> beta w 1 l <> 0 -> beta w 1 r <> 0 -> NoDup (map fst ks) ->
+  run E (two_sew3 n ks l r) c w cnt = (Done tt, w', cnt') ->
+  exists i1 i2 i3 i4 iL iR el er en wa wb,
+    is_vid3 n w l i1 /\ is_vid3 n w (beta w 1 r) i2 /\ is_vid3 n w (beta w 1 l) i3 /\ is_vid3 n w r i4 /\
+    is_vid3 n (set2 w l r) l iL /\ is_vid3 n (set2 w l r) r iR /\ is_eid3 n w l el /\ is_eid3 n w r er /\ is_eid3 n (set2 w l r) l en /\
+    attrs_effect ks KVertex w wa i1 i2 iL /\ attrs_effect ks KVertex wa wb i3 i4 iR /\ attrs_effect ks KEdge wb w' el er en.
+Proof.
+  intros Hdom W Hl0 Hln Hr0 Hrn A1 A2 Hks Hr.
+  assert (Hbln : beta w 1 l < n) by (apply W; [lia|exact Hln]).
+  assert (Hbrn : beta w 1 r < n) by (apply W; [lia|exact Hrn]).
+  unfold two_sew3 in Hr. rewrite !run_rdB3 in Hr by (apply Hdom; [lia|assumption]).
+  destruct (N.eqb_spec (beta w 1 l) 0) as [Z|_]; [contradiction|].
+  destruct (N.eqb_spec (beta w 1 r) 0) as [Z|_]; [contradiction|].
+  destruct (eid3_run' E n c w l cnt Hdom W Hl0 Hln) as (el & Rel & Vel). rewrite run_bind, Rel in Hr.
+  destruct (eid3_run' E n c w r cnt Hdom W Hr0 Hrn) as (er & Rer & Ver). rewrite run_bind, Rer in Hr.
+  destruct (vid3_run E n c w l cnt Hdom W Hl0 Hln) as (i1 & R1 & V1). rewrite run_bind, R1 in Hr.
+  destruct (vid3_run E n c w (beta w 1 r) cnt Hdom W A2 Hbrn) as (i2 & R2 & V2). rewrite run_bind, R2 in Hr.
+  destruct (vid3_run E n c w (beta w 1 l) cnt Hdom W A1 Hbln) as (i3 & R3 & V3). rewrite run_bind, R3 in Hr.
+  destruct (vid3_run E n c w r cnt Hdom W Hr0 Hrn) as (i4 & R4 & V4). rewrite run_bind, R4 in Hr.
+  rewrite run_bind in Hr. destruct (run E (rdV i1) c w cnt) as [[oa sa] ka] eqn:Ea.
+  apply run_rdV_plain in Ea as (-> & ->). destruct oa as [lv|e| |q]; try discriminate Hr.
+  rewrite run_bind in Hr. destruct (run E (rdV i2) c w cnt) as [[ob sb] kb] eqn:Eb.
+  apply run_rdV_plain in Eb as (-> & ->). destruct ob as [b1rv|e| |q]; try discriminate Hr.
+  rewrite run_bind in Hr. destruct (run E (rdV i3) c w cnt) as [[oc sc] kc] eqn:Ec.
+  apply run_rdV_plain in Ec as (-> & ->). destruct oc as [b1lv|e| |q]; try discriminate Hr.
+  rewrite run_bind in Hr. destruct (run E (rdV i4) c w cnt) as [[od sd] kd] eqn:Ed.
+  apply run_rdV_plain in Ed as (-> & ->). destruct od as [rv|e| |q]; try discriminate Hr.
+  rewrite run_bind in Hr.
+  match type of Hr with context [run E ?p c w cnt] =>
+    assert (Ho : run E p c w cnt = (Done tt, w, cnt) \/ exists e, run E p c w cnt = (Failed e, w, cnt)) end.
+  { destruct lv as [a|], b1rv as [b|], b1lv as [c0|], rv as [d0|]; try (left; reflexivity).
+    destruct (bad_orient a b c0 d0); [right; eexists; reflexivity|left; reflexivity]. }
+  destruct Ho as [Ho|[e Ho]]; rewrite Ho in Hr; [|discriminate Hr].
+  rewrite run_bind in Hr.
+  destruct (run E (two_link_core l r) c w cnt) as [[o1 w1] cnt1] eqn:Hc.
+  apply run_two_link_core in Hc. destruct o1 as [[]|e| |q]; try discriminate Hr.
+  destruct Hc as (-> & ->).
+  pose proof (rng3_set2 n w l r W Hl0 Hr0 Hln Hrn) as W1.
+  destruct (vid3_run E n c (set2 w l r) l cnt Hdom W1 Hl0 Hln) as (iL & RL & VL). rewrite run_bind, RL in Hr.
+  destruct (vid3_run E n c (set2 w l r) r cnt Hdom W1 Hr0 Hrn) as (iR & RR & VR). rewrite run_bind, RR in Hr.
+  destruct (eid3_run' E n c (set2 w l r) l cnt Hdom W1 Hl0 Hln) as (en & Ren & Ven). rewrite run_bind, Ren in Hr.
+  rewrite run_bind in Hr.
+  destruct (run E (vertices_merge iL i1 i2) c (set2 w l r) cnt) as [[o2 w2] cnt2] eqn:Hm1.
+  destruct o2 as [[]|e| |q]; try discriminate Hr.
+  pose proof (vstep_attrs E _ _ _ _ _ _ (wi_vertices_merge_v iL i1 i2) Hm1) as Ha1.
+  rewrite run_bind in Hr.
+  destruct (run E (vertices_merge iR i3 i4) c w2 cnt2) as [[o3 w3] cnt3] eqn:Hm2.
+  destruct o3 as [[]|e| |q]; try discriminate Hr.
+  pose proof (vstep_attrs E _ _ _ _ _ _ (wi_vertices_merge_v iR i3 i4) Hm2) as Ha2.
+  rewrite run_bind in Hr.
+  destruct (run E (merge_attributes ks KVertex iL i1 i2) c w3 cnt3) as [[o4 wa] cnta] eqn:Hma.
+  destruct o4 as [[]|e| |q]; try discriminate Hr.
+  rewrite run_bind in Hr.
+  destruct (run E (merge_attributes ks KVertex iR i3 i4) c wa cnta) as [[o5 wb] cntb] eqn:Hmb.
+  destruct o5 as [[]|e| |q]; try discriminate Hr.
+  exists i1, i2, i3, i4, iL, iR, el, er, en, wa, wb.
+  split; [exact V1|]. split; [exact V2|]. split; [exact V3|]. split; [exact V4|]. split; [exact VL|]. split; [exact VR|].
+  split; [exact Vel|]. split; [exact Ver|]. split; [exact Ven|].
+  split; [|split].
+  - eapply attrs_effect_ext; [|reflexivity|exact (run_merge_attributes E KVertex iL i1 i2 ks c w3 cnt3 wa cnta Hks Hma)].
+    intros k d. symmetry. rewrite Ha2, Ha1. reflexivity.
+  - exact (run_merge_attributes E KVertex iR i3 i4 ks c wa cnta wb cntb Hks Hmb).
+  - exact (run_merge_attributes E KEdge en el er ks c wb cntb w' cnt' Hks Hr).
+Qed.
+
+Theorem two_unsew3_attr_data_none E n ks l c w cnt w' cnt' :
+  dom3_ok E n -> rng3 n w -> l <> 0 -> l < n -> beta w 2 l <> 0 -> beta w 1 l = 0 -> beta w 1 (beta w 2 l) = 0 -> NoDup (map fst ks) ->
+  run E (two_unsew3 n ks l) c w cnt = (Done tt, w', cnt') ->
+  let r := beta w 2 l in let w1 := clr2 w l r in
+  exists eo enl enr, is_eid3 n w l eo /\ is_eid3 n w1 l enl /\ is_eid3 n w1 r enr /\ attrs_split_effect ks KEdge w w' enl enr eo.
+Proof.
+  intros Hdom W Hl0 Hln N2 A1 A2 Hks Hr r w1.
+  assert (Hrn : r < n) by (apply W; [lia|exact Hln]).
+  assert (Hbln : beta w 1 l < n) by (apply W; [lia|exact Hln]).
+  assert (Hbrn : beta w 1 r < n) by (apply W; [lia|exact Hrn]).
+  change (beta w 1 r = 0) in A2.
+  unfold two_unsew3 in Hr. rewrite run_rdB3 in Hr by (apply Hdom; [lia|exact Hln]). fold r in Hr.
+  rewrite run_rdB3 in Hr by (apply Hdom; [lia|exact Hln]). rewrite run_rdB3 in Hr by (apply Hdom; [lia|exact Hrn]).
+  rewrite A1, A2 in Hr. change (0 =? 0) with true in Hr. cbv iota in Hr.
+  destruct (eid3_run' E n c w l cnt Hdom W Hl0 Hln) as (eo & Reo & Veo). rewrite run_bind, Reo in Hr.
+  
+  rewrite run_bind in Hr.
+  destruct (run E (two_unlink_core l) c w cnt) as [[o1 w1'] cnt1] eqn:Hc.
+  apply run_two_unlink_core in Hc. destruct o1 as [[]|e| |q]; try discriminate Hr.
+  destruct Hc as (-> & ->). fold r in Hr. fold w1 in Hr.
+  assert (W1 : rng3 n w1) by (apply rng3_clr2; [exact W|lia]).
+  destruct (eid3_run' E n c w1 l cnt Hdom W1 Hl0 Hln) as (enl & Renl & Venl). rewrite run_bind, Renl in Hr.
+  destruct (eid3_run' E n c w1 r cnt Hdom W1 N2 Hrn) as (enr & Renr & Venr). rewrite run_bind, Renr in Hr.
+  exists eo, enl, enr. split; [exact Veo|]. split; [exact Venl|]. split; [exact Venr|].
+  exact (run_split_attributes E KEdge enl enr eo ks c w1 cnt w' cnt' Hks Hr).
+Qed.
+
+Theorem two_unsew3_attr_data_left E n ks l c w cnt w' cnt' :
+  dom3_ok E n -> rng3 n w -> l <> 0 -> l < n -> beta w 2 l <> 0 -> beta w 1 l = 0 -> beta w 1 (beta w 2 l) <> 0 -> NoDup (map fst ks) ->
+  run E (two_unsew3 n ks l) c w cnt = (Done tt, w', cnt') ->
+  let r := beta w 2 l in let w1 := clr2 w l r in
+  exists eo enl enr i0 il ir wa,
+    is_eid3 n w l eo /\ is_eid3 n w1 l enl /\ is_eid3 n w1 r enr /\ is_vid3 n w l i0 /\ is_vid3 n w1 l il /\ is_vid3 n w1 (beta w 1 r) ir /\
+    attrs_split_effect ks KEdge w wa enl enr eo /\ attrs_split_effect ks KVertex wa w' il ir i0.
+Proof.
+  intros Hdom W Hl0 Hln N2 A1 A2 Hks Hr r w1.
+  assert (Hrn : r < n) by (apply W; [lia|exact Hln]).
+  assert (Hbln : beta w 1 l < n) by (apply W; [lia|exact Hln]).
+  assert (Hbrn : beta w 1 r < n) by (apply W; [lia|exact Hrn]).
+  change (beta w 1 r <> 0) in A2.
+  unfold two_unsew3 in Hr. rewrite run_rdB3 in Hr by (apply Hdom; [lia|exact Hln]). fold r in Hr.
+  rewrite run_rdB3 in Hr by (apply Hdom; [lia|exact Hln]). rewrite run_rdB3 in Hr by (apply Hdom; [lia|exact Hrn]).
+  rewrite A1 in Hr. change (0 =? 0) with true in Hr.
+  destruct (N.eqb_spec (beta w 1 r) 0) as [Z|_]; [contradiction|].
+  destruct (eid3_run' E n c w l cnt Hdom W Hl0 Hln) as (eo & Reo & Veo). rewrite run_bind, Reo in Hr.
+  destruct (vid3_run E n c w l cnt Hdom W Hl0 Hln) as (i0 & R0 & V0). rewrite run_bind, R0 in Hr.
+  rewrite run_bind in Hr.
+  destruct (run E (two_unlink_core l) c w cnt) as [[o1 w1'] cnt1] eqn:Hc.
+  apply run_two_unlink_core in Hc. destruct o1 as [[]|e| |q]; try discriminate Hr.
+  destruct Hc as (-> & ->). fold r in Hr. fold w1 in Hr.
+  assert (W1 : rng3 n w1) by (apply rng3_clr2; [exact W|lia]).
+  destruct (eid3_run' E n c w1 l cnt Hdom W1 Hl0 Hln) as (enl & Renl & Venl). rewrite run_bind, Renl in Hr.
+  destruct (eid3_run' E n c w1 r cnt Hdom W1 N2 Hrn) as (enr & Renr & Venr). rewrite run_bind, Renr in Hr.
+  rewrite run_bind in Hr.
+  destruct (run E (split_attributes ks KEdge enl enr eo) c w1 cnt) as [[oa wa] cnta] eqn:Ha.
+  destruct oa as [[]|e| |q]; try discriminate Hr.
+  destruct (attrs_step E _ _ _ _ _ _ (wi_split_attributes_a ks KEdge enl enr eo) Ha) as (_ & Hta).
+  pose proof (rng3_topo n w1 wa W1 Hta) as Wa.
+  pose proof (run_split_attributes E KEdge enl enr eo ks c w1 cnt wa cnta Hks Ha) as EffE.
+  destruct (vid3_run E n c wa l cnta Hdom Wa Hl0 Hln) as (il & Rl & Vl). rewrite run_bind, Rl in Hr.
+  destruct (vid3_run E n c wa (beta w 1 r) cnta Hdom Wa A2 Hbrn) as (ir & Rr & Vr). rewrite run_bind, Rr in Hr.
+  rewrite run_bind in Hr.
+  destruct (run E (vertices_split il ir i0) c wa cnta) as [[o2 w2] cnt2] eqn:Hs.
+  destruct o2 as [[]|e| |q]; try discriminate Hr.
+  pose proof (vstep_attrs E _ _ _ _ _ _ (wi_vertices_split_v il ir i0) Hs) as Hav.
+  exists eo, enl, enr, i0, il, ir, wa. split; [exact Veo|]. split; [exact Venl|]. split; [exact Venr|]. split; [exact V0|].
+  split; [apply (is_vid3_topo n w1 wa _ il Hta); exact Vl|].
+  split; [apply (is_vid3_topo n w1 wa _ ir Hta); exact Vr|].
+  split; [exact EffE|].
+  eapply attrs_split_effect_ext; [|reflexivity|exact (run_split_attributes E KVertex il ir i0 ks c w2 cnt2 w' cnt' Hks Hr)].
+  intros k d. symmetry. apply Hav.
+Qed.
+
+Theorem two_unsew3_attr_data_right E n ks l c w cnt w' cnt' :
+  dom3_ok E n -> rng3 n w -> l <> 0 -> l < n -> beta w 2 l <> 0 -> beta w 1 l <> 0 -> beta w 1 (beta w 2 l) = 0 -> NoDup (map fst ks) ->
+  run E (two_unsew3 n ks l) c w cnt = (Done tt, w', cnt') ->
+  let r := beta w 2 l in let w1 := clr2 w l r in
+  exists eo enl enr i0 il ir wa,
+    is_eid3 n w l eo /\ is_eid3 n w1 l enl /\ is_eid3 n w1 r enr /\ is_vid3 n w r i0 /\ is_vid3 n w1 (beta w 1 l) il /\ is_vid3 n w1 r ir /\
+    attrs_split_effect ks KEdge w wa enl enr eo /\ attrs_split_effect ks KVertex wa w' il ir i0.
+Proof.
+  intros Hdom W Hl0 Hln N2 A1 A2 Hks Hr r w1.
+  assert (Hrn : r < n) by (apply W; [lia|exact Hln]).
+  assert (Hbln : beta w 1 l < n) by (apply W; [lia|exact Hln]).
+  assert (Hbrn : beta w 1 r < n) by (apply W; [lia|exact Hrn]).
+  change (beta w 1 r = 0) in A2.
+  unfold two_unsew3 in Hr. rewrite run_rdB3 in Hr by (apply Hdom; [lia|exact Hln]). fold r in Hr.
+  rewrite run_rdB3 in Hr by (apply Hdom; [lia|exact Hln]). rewrite run_rdB3 in Hr by (apply Hdom; [lia|exact Hrn]).
+  rewrite A2 in Hr. change (0 =? 0) with true in Hr.
+  destruct (N.eqb_spec (beta w 1 l) 0) as [Z|_]; [contradiction|].
+  destruct (eid3_run' E n c w l cnt Hdom W Hl0 Hln) as (eo & Reo & Veo). rewrite run_bind, Reo in Hr.
+  destruct (vid3_run E n c w r cnt Hdom W N2 Hrn) as (i0 & R0 & V0). rewrite run_bind, R0 in Hr.
+  rewrite run_bind in Hr.
+  destruct (run E (two_unlink_core l) c w cnt) as [[o1 w1'] cnt1] eqn:Hc.
+  apply run_two_unlink_core in Hc. destruct o1 as [[]|e| |q]; try discriminate Hr.
+  destruct Hc as (-> & ->). fold r in Hr. fold w1 in Hr.
+  assert (W1 : rng3 n w1) by (apply rng3_clr2; [exact W|lia]).
+  destruct (eid3_run' E n c w1 l cnt Hdom W1 Hl0 Hln) as (enl & Renl & Venl). rewrite run_bind, Renl in Hr.
+  destruct (eid3_run' E n c w1 r cnt Hdom W1 N2 Hrn) as (enr & Renr & Venr). rewrite run_bind, Renr in Hr.
+  rewrite run_bind in Hr.
+  destruct (run E (split_attributes ks KEdge enl enr eo) c w1 cnt) as [[oa wa] cnta] eqn:Ha.
+  destruct oa as [[]|e| |q]; try discriminate Hr.
+  destruct (attrs_step E _ _ _ _ _ _ (wi_split_attributes_a ks KEdge enl enr eo) Ha) as (_ & Hta).
+  pose proof (rng3_topo n w1 wa W1 Hta) as Wa.
+  pose proof (run_split_attributes E KEdge enl enr eo ks c w1 cnt wa cnta Hks Ha) as EffE.
+  destruct (vid3_run E n c wa (beta w 1 l) cnta Hdom Wa A1 Hbln) as (il & Rl & Vl). rewrite run_bind, Rl in Hr.
+  destruct (vid3_run E n c wa r cnta Hdom Wa N2 Hrn) as (ir & Rr & Vr). rewrite run_bind, Rr in Hr.
+  rewrite run_bind in Hr.
+  destruct (run E (vertices_split il ir i0) c wa cnta) as [[o2 w2] cnt2] eqn:Hs.
+  destruct o2 as [[]|e| |q]; try discriminate Hr.
+  pose proof (vstep_attrs E _ _ _ _ _ _ (wi_vertices_split_v il ir i0) Hs) as Hav.
+  exists eo, enl, enr, i0, il, ir, wa. split; [exact Veo|]. split; [exact Venl|]. split; [exact Venr|]. split; [exact V0|].
+  split; [apply (is_vid3_topo n w1 wa _ il Hta); exact Vl|].
+  split; [apply (is_vid3_topo n w1 wa _ ir Hta); exact Vr|].
+  split; [exact EffE|].
+  eapply attrs_split_effect_ext; [|reflexivity|exact (run_split_attributes E KVertex il ir i0 ks c w2 cnt2 w' cnt' Hks Hr)].
+  intros k d. symmetry. apply Hav.
+Qed.
+
+Theorem two_unsew3_attr_data_both E n ks l c w cnt w' cnt' :
+  dom3_ok E n -> rng3 n w -> l <> 0 -> l < n -> beta w 2 l <> 0 -> beta w 1 l <> 0 -> beta w 1 (beta w 2 l) <> 0 -> NoDup (map fst ks) ->
+  run E (two_unsew3 n ks l) c w cnt = (Done tt, w', cnt') ->
+  let r := beta w 2 l in let w1 := clr2 w l r in
+  exists eo enl enr j0 jl jr k0 kl kr wa wb,
+    is_eid3 n w l eo /\ is_eid3 n w1 l enl /\ is_eid3 n w1 r enr /\ is_vid3 n w l j0 /\ is_vid3 n w r k0 /\
+    is_vid3 n w1 l jl /\ is_vid3 n w1 (beta w 1 r) jr /\ is_vid3 n w1 (beta w 1 l) kl /\ is_vid3 n w1 r kr /\
+    attrs_split_effect ks KEdge w wa enl enr eo /\ attrs_split_effect ks KVertex wa wb jl jr j0 /\ attrs_split_effect ks KVertex wb w' kl kr k0.
+Proof.
+  intros Hdom W Hl0 Hln N2 A1 A2 Hks Hr r w1.
+  assert (Hrn : r < n) by (apply W; [lia|exact Hln]).
+  assert (Hbln : beta w 1 l < n) by (apply W; [lia|exact Hln]).
+  assert (Hbrn : beta w 1 r < n) by (apply W; [lia|exact Hrn]).
+  change (beta w 1 r <> 0) in A2.
+  unfold two_unsew3 in Hr. rewrite run_rdB3 in Hr by (apply Hdom; [lia|exact Hln]). fold r in Hr.
+  rewrite run_rdB3 in Hr by (apply Hdom; [lia|exact Hln]). rewrite run_rdB3 in Hr by (apply Hdom; [lia|exact Hrn]).
+  destruct (N.eqb_spec (beta w 1 l) 0) as [Z|_]; [contradiction|].
+  destruct (N.eqb_spec (beta w 1 r) 0) as [Z|_]; [contradiction|].
+  destruct (eid3_run' E n c w l cnt Hdom W Hl0 Hln) as (eo & Reo & Veo). rewrite run_bind, Reo in Hr.
+  destruct (vid3_run E n c w l cnt Hdom W Hl0 Hln) as (j0 & RJ0 & VJ0). rewrite run_bind, RJ0 in Hr.
+  destruct (vid3_run E n c w r cnt Hdom W N2 Hrn) as (k0 & RK0 & VK0). rewrite run_bind, RK0 in Hr.
+  rewrite run_bind in Hr.
+  destruct (run E (two_unlink_core l) c w cnt) as [[o1 w1'] cnt1] eqn:Hc.
+  apply run_two_unlink_core in Hc. destruct o1 as [[]|e| |q]; try discriminate Hr.
+  destruct Hc as (-> & ->). fold r in Hr. fold w1 in Hr.
+  assert (W1 : rng3 n w1) by (apply rng3_clr2; [exact W|lia]).
+  destruct (eid3_run' E n c w1 l cnt Hdom W1 Hl0 Hln) as (enl & Renl & Venl). rewrite run_bind, Renl in Hr.
+  destruct (eid3_run' E n c w1 r cnt Hdom W1 N2 Hrn) as (enr & Renr & Venr). rewrite run_bind, Renr in Hr.
+  rewrite run_bind in Hr.
+  destruct (run E (split_attributes ks KEdge enl enr eo) c w1 cnt) as [[oa wa] cnta] eqn:Ha.
+  destruct oa as [[]|e| |q]; try discriminate Hr.
+  destruct (attrs_step E _ _ _ _ _ _ (wi_split_attributes_a ks KEdge enl enr eo) Ha) as (_ & Hta).
+  pose proof (rng3_topo n w1 wa W1 Hta) as Wa.
+  pose proof (run_split_attributes E KEdge enl enr eo ks c w1 cnt wa cnta Hks Ha) as EffE.
+  destruct (vid3_run E n c wa l cnta Hdom Wa Hl0 Hln) as (jl & RJL & VJL). rewrite run_bind, RJL in Hr.
+  destruct (vid3_run E n c wa (beta w 1 r) cnta Hdom Wa A2 Hbrn) as (jr & RJR & VJR). rewrite run_bind, RJR in Hr.
+  destruct (vid3_run E n c wa (beta w 1 l) cnta Hdom Wa A1 Hbln) as (kl & RKL & VKL). rewrite run_bind, RKL in Hr.
+  destruct (vid3_run E n c wa r cnta Hdom Wa N2 Hrn) as (kr & RKR & VKR). rewrite run_bind, RKR in Hr.
+  rewrite run_bind in Hr.
+  destruct (run E (vertices_split jl jr j0) c wa cnta) as [[o2 w2] cnt2] eqn:Hs1.
+  destruct o2 as [[]|e| |q]; try discriminate Hr.
+  pose proof (vstep_attrs E _ _ _ _ _ _ (wi_vertices_split_v jl jr j0) Hs1) as Hav1.
+  rewrite run_bind in Hr.
+  destruct (run E (vertices_split kl kr k0) c w2 cnt2) as [[o3 w3] cnt3] eqn:Hs2.
+  destruct o3 as [[]|e| |q]; try discriminate Hr.
+  pose proof (vstep_attrs E _ _ _ _ _ _ (wi_vertices_split_v kl kr k0) Hs2) as Hav2.
+  rewrite run_bind in Hr.
+  destruct (run E (split_attributes ks KVertex jl jr j0) c w3 cnt3) as [[ob wb] cntb] eqn:Hb.
+  destruct ob as [[]|e| |q]; try discriminate Hr.
+  exists eo, enl, enr, j0, jl, jr, k0, kl, kr, wa, wb.
+  split; [exact Veo|]. split; [exact Venl|]. split; [exact Venr|]. split; [exact VJ0|]. split; [exact VK0|].
+  split; [apply (is_vid3_topo n w1 wa l jl Hta); exact VJL|].
+  split; [apply (is_vid3_topo n w1 wa _ jr Hta); exact VJR|].
+  split; [apply (is_vid3_topo n w1 wa _ kl Hta); exact VKL|].
+  split; [apply (is_vid3_topo n w1 wa r kr Hta); exact VKR|].
+  split; [exact EffE|]. split.
+  - eapply attrs_split_effect_ext; [|reflexivity|exact (run_split_attributes E KVertex jl jr j0 ks c w3 cnt3 wb cntb Hks Hb)].
+    intros k d. symmetry. rewrite Hav2, Hav1. reflexivity.
+  - exact (run_split_attributes E KVertex kl kr k0 ks c wb cntb w' cnt' Hks Hr).
 Qed.
 
 End SewData3.
